@@ -22,12 +22,32 @@ def parse(rel):
         raise ExtractError(f"{rel}: {e}")
 
 
+def const_eval(node):
+    """literal, or integer arithmetic on literals (`2**255 - 19`, `1 << 20`)"""
+    try:
+        return ast.literal_eval(node)
+    except Exception:
+        pass
+    if isinstance(node, ast.BinOp):
+        a, b = const_eval(node.left), const_eval(node.right)
+        if isinstance(a, int) and isinstance(b, int):
+            if isinstance(node.op, ast.Add): return a + b
+            if isinstance(node.op, ast.Sub): return a - b
+            if isinstance(node.op, ast.Mult): return a * b
+            if isinstance(node.op, ast.Pow) and 0 <= b <= 4096: return a ** b
+            if isinstance(node.op, ast.LShift) and 0 <= b <= 4096: return a << b
+    if isinstance(node, ast.UnaryOp) and isinstance(node.op, ast.USub):
+        v = const_eval(node.operand)
+        if isinstance(v, int): return -v
+    raise ValueError("not a constant expression")
+
+
 def module_assign(tree, name, rel):
     for n in tree.body:
         if isinstance(n, ast.Assign) and len(n.targets) == 1 and isinstance(n.targets[0], ast.Name) \
                 and n.targets[0].id == name:
             try:
-                return ast.literal_eval(n.value)
+                return const_eval(n.value)
             except Exception as e:
                 raise ExtractError(f"{rel}: {name} is not a literal ({e})")
     raise ExtractError(f"{rel}: no module-level assignment to {name}")
@@ -37,7 +57,7 @@ def call_arg(tree, fname, rel):
     for n in ast.walk(tree):
         if isinstance(n, ast.Call) and isinstance(n.func, ast.Name) and n.func.id == fname and n.args:
             try:
-                return ast.literal_eval(n.args[0])
+                return const_eval(n.args[0])
             except Exception as e:
                 raise ExtractError(f"{rel}: argument of {fname} is not a literal ({e})")
     raise ExtractError(f"{rel}: no call of {fname}")
